@@ -15,6 +15,7 @@ CONSTANTS
   BadJs <- McBadJs
   Acts <- McActs
   CondCodes <- McCondCodes
+  OneShot <- McOneShot
 VIEW View
 INVARIANTS NeverSeenAfter RefusalHarmless CascadeExact
 CHECK_DEADLOCK FALSE
